@@ -722,6 +722,10 @@ def main(chk: lib.Check) -> int:
         r = lib.tlc_expect_violation("Raster", f"Raster_{v}.cfg", inv, tag=v, workers=2)
         chk.add_model(f"Raster/{v}(expected violation)", r, f"broken mechanism rejected by {inv}: {what}")
 
+    if thorough:
+        r = lib.tlc_design("Raster", "Raster_3x3.cfg", tag="3")
+        chk.add_model("Raster/3x3", r, "all 4096 graphs of 3x3 x all (start,end) x all simple paths x 8 option combinations: mechanism = statement + clause-style theorems")
+
     cap = _Capped(chk)
     check_hand_made(chk)
     # ---- (C1) exhaustive tiny scope on the real code
@@ -731,19 +735,19 @@ def main(chk: lib.Check) -> int:
         n = mz.n_graphs(rr, cc)
         step = max(1, n // 16)
         jobs += [(rr, cc, lo, min(n, lo + step)) for lo in range(0, n, step)]
-    if not thorough:  # a seeded eighth of the oblong 2x3 / 3x2 graphs
-        rng = np.random.default_rng([chk.seed, 1])
-        for rr, cc in [(2, 3), (3, 2)]:
-            jobs += [(rr, cc, int(g), int(g) + 1) for g in sorted(rng.choice(mz.n_graphs(rr, cc), size=16, replace=False).tolist())]
+    rng = np.random.default_rng([chk.seed, 1])
+    sampled = [(3, 3, 48)] if thorough else [(2, 3, 16), (3, 2, 16), (3, 3, 4)]  # seeded graphs of the next shapes
+    for rr, cc, cnt in sampled:
+        jobs += [(rr, cc, int(g), int(g) + 1) for g in sorted(rng.choice(mz.n_graphs(rr, cc), size=cnt, replace=False).tolist())]
     recs = [x for sub in lib.pmap(observe_graphs, jobs) for x in sub]
     chk.sample(next(x for x in recs if len(x["maze"]["sol"]) >= 3 and x["ric"] and not x["ext"] and x["eao"]))
     _judge(chk, cap, recs, "tiny", "exhaustive tiny shapes x 8 option combinations, judged per image against Raster.tla")
     chk.exhaustive = True
-    chk.notes["exhaustive_scope"] = "all graphs x all ordered (start,end) incl. equal x all shortest paths x 8 option combinations for shapes " + str(shapes) + ("" if thorough else " + 16 seeded graphs each of 2x3, 3x2")
+    chk.notes["exhaustive_scope"] = "all graphs x all ordered (start,end) incl. equal x all shortest paths x 8 option combinations for shapes " + str(shapes) + " + seeded graphs (shape, count): " + str(sampled)
 
     # ---- (C2) generators, hand-built mazes
-    nrand = 1200 if thorough else 144
-    per = 300
+    nrand = 3000 if thorough else 144
+    per = 500
     for b0 in range(0, nrand, per):
         recs = [x for sub in lib.pmap(observe_random, [(chk.seed, k, 10) for k in range(b0, min(nrand, b0 + per))], chunksize=2) for x in sub]
         if b0 == 0:
@@ -755,7 +759,7 @@ def main(chk: lib.Check) -> int:
     chk.notes["random_graphs"] = nrand
 
     # ---- (C3) datasets and batches
-    nds = 480 if thorough else 96
+    nds = 960 if thorough else 96
     recs = [x for sub in lib.pmap(observe_dataset, [(chk.seed, k, 10 if thorough else 7) for k in range(nds)], chunksize=2) for x in sub]
     chk.notes["datasets_skipped_generation_raises"] = nds - len(recs)
     if len(recs) < nds // 2:
